@@ -145,6 +145,7 @@ func BuildFromRecording(rec *MemoryRecorder, store factstore.ReadOnlyFactStore, 
 		store:   store,
 		opts:    opts,
 		cache:   make(map[uint64][]*ProofNode),
+		cacheAt: make(map[uint64]int),
 		onStack: make(map[uint64]int),
 		ruleIDs: make(map[string]string),
 		minCut:  noCut,
@@ -161,6 +162,7 @@ type builder struct {
 	store   factstore.ReadOnlyFactStore
 	opts    Options
 	cache   map[uint64][]*ProofNode
+	cacheAt map[uint64]int    // see explainer.cacheAt
 	onStack map[uint64]int    // goal hash -> position on the stack
 	minCut  int               // see explainer.minCut
 	ruleIDs map[string]string // rule.String() -> rule content ID
@@ -172,7 +174,7 @@ func (b *builder) build(goal ast.Atom, depth int) []*ProofNode {
 	}
 	h := goal.Hash()
 	taint := noCut
-	if cached, ok := b.cache[h]; ok {
+	if cached, ok := b.cache[h]; ok && (depth >= b.cacheAt[h] || !anyPartial(cached)) {
 		taint = minStackPos(cached, b.onStack, map[*ProofNode]bool{})
 		if taint == noCut {
 			return cached
@@ -224,7 +226,7 @@ func (b *builder) build(goal ast.Atom, depth int) []*ProofNode {
 	// Only reuse results that do not depend on a goal further up the stack
 	// having been cut out of the search.
 	if b.minCut >= myPos {
-		b.cache[h] = proofs
+		b.cache[h], b.cacheAt[h] = proofs, depth
 	}
 	return proofs
 }
